@@ -6,6 +6,7 @@ import Proofs.Machine.SubmoduleLogSource
 import Proofs.Machine.HunkRowsShape
 import Proofs.Machine.CommitBlocksEx
 import Proofs.Machine.CommitMetaSource
+import Proofs.Machine.CommitBlocksExHH
 import Proofs.Headers.Paths
 import Proofs.Headers.HunkHeader
 /-!
@@ -870,5 +871,35 @@ example : (match runFrom {} {} modeOnlyHead with
       (CommitMetaSrc.exec {} (Machine.CommitBlocksEx.mkC "commit 1234567") m.n
           [.declineUnless "test_commit_meta_header_line", .unknown "self.x();", .returnHandled] m false).isNone
     | .error _ => false) = true := by decide
+
+-- hunk-header rows over `git log -p` streams (T19) ---------------------------------------------------------------
+
+/-- **`hunk_header_row_shows_own_section_log`** (whole runs, `Proofs/Machine/CommitBlocksHH.lean`):
+`hunk_header_row_shows_own_section` over `git log -p` shaped input (the inputs of `one_file_header_per_section_log`: a leading
+diff, then commits, each with its commit line, message lines and any list of sections, possibly none). The rows of kind
+`hunkHeader` of delta's output are exactly, in order, those of the sections (`hhRowsOfLog` = the `hhRowsOf2` of each commit's
+sections at their own input indices): one per `@@` line that a line of its hunk follows, built from that line's own coordinates and
+fragment and from the two file names of the section it stands in. A commit block writes none — under every commit style, in
+whatever state the commit line is met (`commit_line_writes_no_hunk_header_row`: a hunk header still pending, i.e. an `@@` line no
+hunk line followed, is dropped there as it is at a `diff --git` line) — and does not change the names a later section's rows show. -/
+theorem hunk_header_row_shows_own_section_log {cfg : Cfg} (hc : FHC cfg) (pre : List Sec2) (commits : List Commit)
+    (wp : ∀ s ∈ pre, s.WF) (wc : ∀ k ∈ commits, k.WF) {m : M} (e : run cfg (linesOfLog pre commits) = .ok m) :
+    m.out.filter (fun r => r.kind == .hunkHeader) = hhRowsOfLog cfg pre commits :=
+  run_hunk_rows_log hc pre commits wp wc e
+
+/-- a commit line, met in any state, under any configuration: no hunk-header row -/
+theorem commit_line_writes_no_hunk_header_row {cfg : Cfg} {m m1 : M} {l : L} (hl : isCommitLine l = true)
+    (e : step cfg m l = .ok m1) :
+    (timeline m1).filter (fun r => r.kind == .hunkHeader) = (timeline m).filter (fun r => r.kind == .hunkHeader) :=
+  commit_line_rows hl e
+
+open Machine.CommitBlocksEx in
+/-- three commits; the first one's section ends in an `@@` line that no hunk line follows (no row; dropped at the second commit
+line); rows under `file` + label: own path, own new-file start, own fragment, own index; the model's run agrees, also with a
+leading diff and a raw commit style (`Proofs/Machine/CommitBlocksExHH.lean`) -/
+example : (∀ k ∈ logHH, k.WF) ∧
+    shown (hhRowsOfLog cfgLabelled [] logHH) = [("§ src/x.rs:1: fn f() ", 13), ("§ src/x.rs:90: fn g() ", 17), ("§ y:1: ", 40)] ∧
+    agreesHH cfgLabelled [] logHH = true ∧ agreesHH { commitStyle := { isRaw := true } } [sHunksDangling] logHH = true :=
+  ⟨logHH_wf, logHH_rows, logHH_run.1, logHH_run.2⟩
 
 end C14
